@@ -58,11 +58,17 @@ def main(seed):
         for line in r.stdout.splitlines():
             if line.startswith("DIGESTS "):
                 c = {int(k): tuple(v) for k, v in json.loads(line[8:])[p].items()}
-        diffs = [i for i in a if a[i] != b.get(i) or tuple(a[i]) != tuple(c.get(i, ()))]
+        diffs = [i for i in a if a[i] != b.get(i)]
+        # results must agree everywhere; the event log may legitimately differ under another PYTHONHASHSEED because dask's graph
+        # optimisation is hash-order dependent (./check pins PYTHONHASHSEED, replays run under the same pinned value)
+        hdiffs = [i for i in a if i not in diffs and tuple(a[i]) != tuple(c.get(i, ()))]
+        rdiffs = [i for i in a if c.get(i) and a[i][1] != c[i][1]]
         errs = sum(1 for i in a if a[i][3])
-        print(f"selftest {p}: seeds={len(a)} mismatches={len(diffs)} harness_errors={errs} (16 vs 4 workers vs fresh interpreter PYTHONHASHSEED=12345/7 workers)")
-        for i in diffs[:5]:
+        print(f"selftest {p}: seeds={len(a)} mismatches={len(diffs)} result_mismatches_other_hashseed={len(rdiffs)} "
+              f"event_log_differs_under_other_hashseed={len(hdiffs)} harness_errors={errs} "
+              f"(16 vs 4 workers, same PYTHONHASHSEED; fresh interpreter with PYTHONHASHSEED=12345 / 7 workers)")
+        for i in (diffs + rdiffs)[:5]:
             print("   seed-index", i, a[i], b.get(i), c.get(i))
-        bad += len(diffs)
+        bad += len(diffs) + len(rdiffs)
     print(f"selftest wall={time.time() - t0:.0f}s")
     return 1 if bad else 0
